@@ -492,6 +492,11 @@ mod responder;
 mod state;
 mod teardown;
 
+/// Verification hooks (see `src/verif.rs`); absent unless built with `--cfg unimock_verif`.
+#[cfg(unimock_verif)]
+#[doc(hidden)]
+pub mod verif;
+
 use core::any::Any;
 use core::any::TypeId;
 use core::fmt::Debug;
